@@ -1600,6 +1600,21 @@ def value_table(fn, e, depth=0):
             return rows
         if len(ds) == 1:
             return value_table(fn, fn.expr_of_def(ds[0]), depth + 1) if fn.expr_of_def(ds[0]) != e0 else [([], e0)]
+    if e0[0] == 'call' and e0[1] in P.fns and depth <= 3:
+        # a private helper called from this function only, with a plain value result: its own decision table, in the caller's terms
+        H = P.fns[e0[1]]
+        base = re.sub(r'(::\{closure#\d+\})+$', '', fn.id)
+        if not hasattr(P, '_callers'):
+            exclusive_family(P, fn)
+        ex = H.exits()
+        out_ty = H.raw.get('output', '')
+        if H.kind != 'Closure' and not H.public and not H.raw.get('derived') and P._callers.get(H.id, set()) <= {base} and 2 <= len(ex) <= 6 and \
+                not re.match(r'^(std::result::Result|std::option::Option|anyhow)', out_ty) and all(x['kind'] in ('ok', 'value', 'plain', 'ret', None) or True for x in ex):
+            rows = []
+            for x in ex:
+                cs = [(subst_args(expand(H, c), e0[2]), lab) for b, c, lab in _edge_conds(H, x['block'])]
+                rows.append((cs, subst_args(expand(H, x['expr']), e0[2])))
+            return rows
     if e0[0] == 'call' and re.search(r'Option::<T>::unwrap_or_else$', e0[1]) and len(e0[2]) == 2 and e0[2][1][0] == 'closure' and e0[2][1][1] in P.fns:
         X = e0[2][0]
         cf = P.fns[e0[2][1][1]]
